@@ -66,7 +66,7 @@ GRAPH_TRUSTED = [
     'specified over ghost views, not verified (bounded Kani audit in kani/deps)',
     'axiom_itermut_resolved: slots an emap IterMut never yielded keep their value when the iterator is dropped',
     'stricter borrow signatures in the shim (iter_mut(&mut self), into_iter(&self) with a lifetime) describe what those methods do',
-    'derive(PartialEq) on Label/Persistence is structural equality (Verus `Structural`)',
+    '`==` on Label/Persistence is structural (Verus `Structural`): discharged by Kani harnesses on the real types for C01-C03, assumed elsewhere',
     'Hex is opaque in this unit: Hex::empty() has the empty byte string, Hex::clone() keeps the byte string (proved for empty() in U_hex)',
     'assume_specification <[T]>::to_vec',
 ]
@@ -103,6 +103,10 @@ def classify_config_sensitive(which):
     return f
 
 
+T = 'harness::eqv::'
+TYPES_EQ = [T + 'label_eq_is_structural', T + 'persistence_eq_is_structural', T + 'label_copy_clone_keep_value']
+
+
 def graph_prop(pid, technique, level_text, explanation, not_covered, extra=None):
     d = dict(
         units=['U_ops', 'U_model'], level='proof',
@@ -119,6 +123,9 @@ def graph_prop(pid, technique, level_text, explanation, not_covered, extra=None)
                      'every graph state reached through empty()/add/bind/put/data/next_id/clone; merge()/join()/slice()/'
                      'load() are outside the verified set'],
     )
+    if pid in ('C01', 'C02', 'C03'):
+        d['parts'] = [parts.kani_group('kani-types-structural-eq', TYPES_EQ, complete=True, kind='types')]
+        d['back_end_extra'] = 'Kani 0.68.0 -> CBMC 6.11 for "== on Label/Persistence is structural" on the real types'
     if extra:
         d.update(extra)
     return d
